@@ -969,6 +969,11 @@ def none_default_discipline(ctx: Context, rule: str, qualnames: Iterable[str]) -
                 # (another optional parameter that WAS given may take precedence: `axis` over `linear_dimension`)
                 sibling = any((f"{o} is not None", True) in fs or (f"{o} is None", False) in fs for o in none_params - {name}
                               if any(isinstance(n, ast.Name) and n.id == o for n in ast.walk(st.value)))
+                for o in sorted(none_params - {name}):
+                    if any(isinstance(n, ast.Name) and n.id == o and isinstance(n.ctx, ast.Load) for n in ast.walk(st.value)):
+                        o_none = (f"{o} is None", True) in fs or (f"{o} is not None", False) in fs
+                        ctx.check(rule, not o_none, f"the default of `{name}` is made from `{o}` only where `{o}` was given, never where it is None", fi, st,
+                                  construct=f"{fi.short}: {name} = {norm_text(st.value)[:50]} under {'`' + o + ' is None`' if o_none else 'a path where `' + o + '` may have been given'}")
                 ctx.check(rule, is_none or sibling, f"the default of `{name}` (`{norm_text(st.value)[:50]}`) is substituted exactly where `{name}` is None: what the caller gave is kept", fi, st,
                           construct=f"{fi.short}: {name} = {norm_text(st.value)[:50]} under {'`' + name + ' is None`' if is_none else ('`' + name + ' is not None`' if not_none else 'no test of ' + name)}")
 
@@ -1065,3 +1070,57 @@ def cf_coordinate_markers(ctx: Context, rule: str) -> None:
                 break
         ctx.check(rule, ok, f"{member}: a variable is the coordinate when it is no other variable's bounds and carries any one of units in {units}, standard_name {std!r}, axis {axis!r} "
                   "(each alone is enough) - and under no further condition", fi, gens[0] if gens else fi.node, construct=why[:300])
+
+
+def mesh_table_dimension_tests(ctx: Context, rule: str) -> None:
+    """A supplied connectivity table is set aside (with a warning) exactly when its dimensions are not the two expected ones: each
+    `has_valid_<table>_connectivity` answers False under `actual != expected` and True at its end.  An inverted test discards every
+    well-formed table and keeps the malformed ones."""
+    from .common import facts
+    p = ctx.p
+    n = 0
+    for table in ('face_node', 'edge_node', 'edge_face', 'face_edge', 'face_face'):
+        fi = p.functions.get(f"{TOPO}.has_valid_{table}_connectivity")
+        if fi is None:
+            continue
+        n += 1
+        compares = [c for c in ast.walk(fi.node) if isinstance(c, ast.Compare) and len(c.ops) == 1 and isinstance(c.ops[0], (ast.Eq, ast.NotEq))
+                    and {norm_text(c.left), norm_text(c.comparators[0])} == {'actual', 'expected'}]
+        if not compares:
+            # spelled out another way: the obligation is read off the facts below only when the set comparison is there
+            ctx.check(rule, False, f"has_valid_{table}_connectivity compares the table's dimensions with the expected pair", fi, fi.node, construct='no `actual != expected` test')
+            continue
+        falses = [r for r in fi.returns() if isinstance(r.value, ast.Constant) and r.value.value is False]
+        trues = [r for r in fi.returns() if isinstance(r.value, ast.Constant) and r.value.value is True]
+        under_mismatch = [r for r in falses if (('actual != expected', True) in facts(ctx, fi, r, expand=False) or ('actual == expected', False) in facts(ctx, fi, r, expand=False))]
+        ok_false = len(under_mismatch) >= 1
+        ok_true = bool(trues) and all((('actual != expected', False) in facts(ctx, fi, r, expand=False) or ('actual == expected', True) in facts(ctx, fi, r, expand=False)) for r in trues)
+        ctx.check(rule, ok_false and ok_true, f"{table}: the supplied table is refused where its dimensions differ from the expected pair, and accepted only where they agree", fi, compares[0],
+                  construct=f"has_valid_{table}_connectivity: False under mismatch: {ok_false}; True only under agreement: {ok_true}")
+    ctx.check(rule, n >= 4, "the validity tests of the optional tables were found", None, None, construct=f"{n} has_valid_*_connectivity properties")
+
+
+def mesh_fill_value(ctx: Context, rule: str) -> None:
+    """The fill value that marks missing entries in derived and re-indexed tables must lie above every index: it is written as a row of nines with
+    at least as many digits as the largest count (nodes; faces times nodes per face, an upper bound for edges)."""
+    fi = ctx.func(f"{TOPO}.sensible_fill_value")
+    rets = fi.returns()
+    ok, why = False, '?'
+    if len(rets) == 1:
+        flow = ctx.flow(fi)
+        v = flow.resolve(rets[0].value)
+        why = norm_text(v)[:80]
+        if isinstance(v, ast.Call) and isinstance(v.func, ast.Name) and v.func.id == 'int' and len(v.args) == 1 and isinstance(v.args[0], ast.BinOp) and isinstance(v.args[0].op, ast.Mult):
+            left, right = v.args[0].left, v.args[0].right
+            if const_value(right, None) == '9':
+                left, right = right, left
+            digits, k = flow.resolve(right), 0
+            if isinstance(digits, ast.BinOp) and isinstance(digits.op, (ast.Add, ast.Sub)) and isinstance(const_value(digits.right, None), int):
+                k = const_value(digits.right, 0) * (1 if isinstance(digits.op, ast.Add) else -1)
+                digits = flow.resolve(digits.left)
+            if const_value(left, None) == '9' and isinstance(digits, ast.Call) and isinstance(digits.func, ast.Name) and digits.func.id == 'len' and len(digits.args) == 1 \
+                    and isinstance(digits.args[0], ast.Call) and isinstance(digits.args[0].func, ast.Name) and digits.args[0].func.id == 'str' and len(digits.args[0].args) == 1:
+                counts = norm_text(flow.resolve(digits.args[0].args[0]))
+                ok = k >= 0 and counts.startswith('max(') and 'self.node_count' in counts and 'self.face_count * self.max_node_count' in counts
+                why = f"nines: digits of {counts[:70]} {'+' if k >= 0 else '-'} {abs(k)}"
+    ctx.check(rule, ok, "the mesh fill value is a row of nines with at least as many digits as the largest element count: no index can equal it", fi, rets[0] if rets else fi.node, construct=why)
